@@ -51,6 +51,10 @@ func fixedScenarios() []*Scenario {
 		{Metrics: true, Starts: []int{bOK}, Readies: []int{bOK}, Shuts: []int{bOK}, Stops: []int{bOK}, Reqs: []Rel{{Kind: "J"}, {Kind: "D"}}},
 		{Proto: pTLS, Stops: []int{bOK}, Reqs: []Rel{{Kind: "J"}}},
 		{ShortWrite: true, Shuts: []int{bOK}, Stops: []int{bOK}, Reqs: []Rel{{Kind: "D"}, {Kind: "H", J: 0}}},
+		// the App has been through a Start before: a failed attempt (port taken), a complete run
+		{Warm: 1, Starts: []int{bOK}, Readies: []int{bOK}, Shuts: []int{bOK, bOK}, Stops: []int{bOK, bOK}},
+		{Warm: 2, Starts: []int{bOK}, Readies: []int{bOK}, Shuts: []int{bOK, bOK, bOK}, Stops: []int{bOK}, Reqs: []Rel{{Kind: "D"}}},
+		{Warm: 2, NReload: 1, Shuts: []int{bOK, bOK}, Stops: []int{bPanic, bOK}, Rounds: []Round{{Trig: 0, CancelAt: -1}}},
 		// the stop signal arrives during start-up and the log sink is slow when the startup buffer is flushed
 		{SlowLog: true, Starts: []int{bCancelOK}, Readies: []int{bOK}, Stops: []int{bOK}},
 		// … and no hook that would probe the port and thereby wait until it is served
@@ -251,6 +255,15 @@ func genScenario(r *hx.Rand, tier string) *Scenario {
 		if !hasD && r.Chance(1, 2) {
 			sc.Reqs = append(sc.Reqs, Rel{Kind: "D"})
 		}
+	}
+	// the App has been through a Start before (not with the observability servers: they are not restartable)
+	startPanics := false
+	for _, b := range sc.Starts {
+		startPanics = startPanics || isPanic(b)
+	}
+	// (a panicking OnStart hook leaves the startup log buffer unflushed — unless an earlier Start has flushed it already)
+	if !sc.Metrics && !sc.Tracing && !sc.MetDead && sc.LateHup == 0 && sc.Listen == lOK && !sc.ByDeadline && !sc.LateReg && !startPanics && r.Chance(1, 8) {
+		sc.Warm = 1 + r.Intn(2)
 	}
 	// a slow log sink while the startup buffer is flushed, with the stop signal already there
 	for _, b := range sc.Starts {
